@@ -49,7 +49,7 @@ func (Prop) Describe(t vp.Tier) vp.Description {
 // Corpus returns the C01 corpus for a stage.
 func Corpus(c *vp.Child) eng.Corpus {
 	cp := eng.Corpus{
-		Programs: c.Pick(2000, 120000),
+		Programs: c.Pick(2000, 60000),
 		NStyles:  c.Pick(2, 4),
 		NArgs:    c.Pick(2, 3),
 		NonTrivial: func(cs *eng.Case, p *lg.Program) bool {
